@@ -1069,11 +1069,13 @@ class CanBeVaries(Element):
         if datatype == 'varies' and reference is None:
             reference = ('leaf', None, 'varies', None, None, -1)
 
-        if not Validator.is_strict(validation_level) and datatype not in (None, 'varies') \
+        # a VARIES_n element has no datatype of its own that could be overridden: it takes the given one at both levels
+        is_varies_name = name is not None and _valid_child_name(name, 'VARIES')
+        if (not Validator.is_strict(validation_level) or is_varies_name) and datatype not in (None, 'varies') \
                 and not is_base_datatype(datatype, version):
             version = version or get_default_version()
             children_refs = load_reference(datatype, 'Datatypes_Structs', version)
-            if name is not None:
+            if name is not None and not is_varies_name:
                 # first we get the original reference for the long_name, table etc
                 orig_ref = load_reference(name, 'Component', version)
                 reference = ('sequence', children_refs, datatype, orig_ref[3], orig_ref[4], orig_ref[5])
